@@ -94,6 +94,21 @@ CHECKS['C01'] = dict(
     technique='sidecar contracts (invariant components) + own VC generator over the real AST with contract cuts and loop-invariant cuts + z3; '
               'native replay of counter-models; native guard against vacuity')
 
+CHECKS['C03'] = dict(
+    category='proof',
+    text='The betting rules of the statement are written as pure functions of explicit vectors in spec/betting.py (call amount, bring-in, '
+         'effective stack, minimum / pot / maximum raise-to per structure, refusal of a raise: cap, covered, nobody can call more, short '
+         'all-in to a player who has acted; clockwise queue after a raise). Each real amount property, each verifier and each betting '
+         'operation of State is executed symbolically from an arbitrary betting state of the shape -- all stacks, bets, bookkeeping values, '
+         'structure, mode symbolic -- and proved equal to the spec: amounts, exact refusal conditions (ValueError / UserWarning), what an '
+         'operation moves and for whom, how the queue and the history fields (raise count, largest raise, short all-ins, who has acted) are '
+         'updated, and when the round ends. The history fields are the history by induction over these per-operation clauses.',
+    design_ref='DESIGN.md section 4 (C03), section 8',
+    note='D/shape: n in {2,3} quick, {2,3,4,5} thorough; assumes betting_ok (distinct live actors with chips, >=2 players in, street current) '
+         '-- evaluated natively on real hands on every run; the reset of the history fields at the start of a round is proved under C13 '
+         '(_begin_betting); asserts inside operations are C07 obligations.',
+    technique='sidecar contracts + own VC generator over the real AST + z3 against an independent rule spec; native replay of counter-models')
+
 NOT_APPLICABLE = {
     'C20': 'regex-driven text importers against external site formats; no contract within reach expresses or decides it (DESIGN.md section 5)',
 }
